@@ -554,6 +554,13 @@ def _offsets(ctx, m, repo=None, folder=None):
         return v if isinstance(v, Lin) else Lin.of(v)
 
     def compare(it, op, a, b, node, func):
+        if isinstance(op, (ast.Is, ast.IsNot)) and (a is None or b is None):
+            other = b if a is None else a
+            if other is None:
+                return isinstance(op, ast.Is)
+            if isinstance(other, (Sym, Lin, _Ins, int)):
+                return isinstance(op, ast.IsNot)  # symbolic addresses / instructions are objects, never None
+            return NotImplemented
         la, lb = lin(a) if not isinstance(a, (_Ins,)) else None, lin(b) if not isinstance(b, (_Ins,)) else None
         if la is None or lb is None or not isinstance(op, (ast.Eq, ast.NotEq, ast.Lt, ast.LtE, ast.Gt, ast.GtE)):
             return NotImplemented
